@@ -247,7 +247,7 @@ func checkWholeFile(c *Ctx, which string, d []byte, name string) {
 		var swOut []byte
 		var esw error
 		psw := safe(func() {
-			sw := bits.NewFixedSliceWriter(int(fr.Size()))
+			sw := dirtyWriter(int(fr.Size()))
 			esw = fr.EncodeSW(sw)
 			swOut = sw.Bytes()
 		})
@@ -626,7 +626,7 @@ func checkBuilt(c *Ctx, which, kind, req string, build func() sizedEncoder) []by
 	}
 	var sizeTwin uint64
 	eS.panic = safe(func() {
-		sw := bits.NewFixedSliceWriter(capacity)
+		sw := dirtyWriter(capacity)
 		eS.err = b.EncodeSW(sw)
 		eS.out = sw.Bytes()
 		sizeTwin = b.Size()
@@ -649,7 +649,7 @@ func checkBuilt(c *Ctx, which, kind, req string, build func() sizedEncoder) []by
 		}
 		// the other encoder on the already encoded structure, buffer of exactly Size() bytes; and Encode once more
 		eS2.panic = safe(func() {
-			sw := bits.NewFixedSliceWriter(int(a.Size()))
+			sw := dirtyWriter(int(a.Size()))
 			eS2.err = a.EncodeSW(sw)
 			eS2.out = sw.Bytes()
 		})
@@ -1150,7 +1150,7 @@ func (h *mdatHist) build() *mp4.MdatBox {
 		case "encw":
 			_ = m.Encode(io.Discard)
 		case "encsw":
-			_ = m.EncodeSW(bits.NewFixedSliceWriter(h.mem + h.parts + h.startN + 4096))
+			_ = m.EncodeSW(dirtyWriter(h.mem + h.parts + h.startN + 4096))
 		case "info":
 			_ = m.Info(io.Discard, "all:1", "", " ")
 		}
@@ -1226,7 +1226,7 @@ func checkMdatHistory(c *Ctx, which string, h *mdatHist) {
 		sizeAfter = a.Size()
 	})
 	eS.panic = safe(func() {
-		sw := bits.NewFixedSliceWriter(payload + 64)
+		sw := dirtyWriter(payload + 64)
 		eS.err = b.EncodeSW(sw)
 		eS.out = sw.Bytes()
 		sizeTwin = b.Size()
@@ -1409,7 +1409,7 @@ func checkLazySetData(c *Ctx, which string, d []byte, name string) {
 	var swOut []byte
 	pw := safe(func() { sizeBefore = fl.Size(); ew = fl.Encode(&bw) })
 	psw := safe(func() {
-		sw := bits.NewFixedSliceWriter(int(fl.Size()))
+		sw := dirtyWriter(int(fl.Size()))
 		esw = fl.EncodeSW(sw)
 		swOut = sw.Bytes()
 	})
